@@ -26,7 +26,8 @@ type C13Case struct {
 var c13KeywordLike = []string{"printx", "iffy", "nextone", "_in", "isa", "BEGINX", "xEND", "if2", "fortune", "whiled", "exits", "nullable", "truex",
 	"matchbox", "returned", "elsewhere", "functional", "breaker", "continued", "ins", "ENDFILEX", "falsey", "in_", "is_"}
 
-var c13NumSpellings = []string{"007", "1.50", "0.0", "10", "3", "2.5", "100", "0", "1", "12", "0.5", "00", "3.0"}
+var c13NumSpellings = []string{"007", "1.50", "0.0", "10", "3", "2.5", "100", "0", "1", "12", "0.5", "00", "3.0",
+	"2147483648", "9007199254740993", "999999999999999999", "9223372036854775807", "9223372036854775808", "9999999999999999999", "18446744073709551616", "12345678901234567890", "9999999999999999999.0", "123456789012345678901234567890"}
 
 func c13Lexical(t *rapid.T) *DCase {
 	n := func(lo, hi int, l string) int { return rapid.IntRange(lo, hi).Draw(t, l) }
